@@ -207,13 +207,13 @@ def tick_election(ctx, role, readonly):
     out = [(to, m) for to, m in ctx.glist('outbox') if isinstance(m, PDict)]
     rv = [(to, m) for to, m in out if m.items.get('type') == 'request_vote']
     started = t1 != t0
-    ctx.prove(Or(t1 == t0, t1 == t0 + 1), 'C03:R1.term-increments-by-one-at-most')
+    ctx.prove(Or(t1 == t0, t1 == t0 + 1), 'C03+C07:R1.term-increments-by-one-at-most')
     ctx.prove(Implies(readonly, And(t1 == t0, r1 == r0, Eq(vf1, vf0))), 'C18:O18.1.readonly-never-candidate')
     ctx.prove(Implies(readonly, len(rv) == 0), 'C18:O18.1.readonly-sends-no-vote-request')
     ctx.prove(Implies(r0 == LEADER, And(t1 == t0, r1 == r0, Eq(vf1, vf0))), 'C03:A4.leader-does-not-start-election')
     if ctx.decide(started, 'election-started'):
-        ctx.prove(And(Eq(vf1, NodeId(so.U)), Or(r1 == CAND, r1 == LEADER)), 'C03:A4.candidate-state')
-        ctx.prove(Implies(r1 == CAND, so.get('votesCount') == 1), 'C03:A4.votes-reset-to-self-vote')
+        ctx.prove(And(Eq(vf1, NodeId(so.U)), Or(r1 == CAND, r1 == LEADER)), 'C03+C07:A4.candidate-state')
+        ctx.prove(Implies(r1 == CAND, so.get('votesCount') == 1), 'C03+C07:A4.votes-reset-to-self-vote')
         ctx.prove(Implies(r1 == LEADER, majority(1, nv)), 'C03:R3.leader-at-once-only-with-majority-of-one')
         voters = old.get('otherNodes').bits
         for i in range(so.U):
